@@ -519,3 +519,49 @@ def r10h(ctx):
         ctx.ok(cid, mod.loc(fn), f"the presorted verdict consults the per-partition null test {sorted(null_vars)}")
     else:
         ctx.bad(cid, mod.loc(ret), "the presorted verdict is derived from M.min / M.max summaries only, which skip missing keys: a NaN / NaT / NA key in a partition that is not the last stays where it is (sort_values only sorts inside the partitions on the fast path), so the output of a sort is not sorted and depends on the npartitions hint; set_index claims divisions around the missing label")
+
+
+# ---------------------------------------------------------------------------------------------
+# R10i
+# ---------------------------------------------------------------------------------------------
+
+
+@rule(
+    "R10i",
+    ["C10"],
+    """ONE PARTITIONING RULE FOR BOTH SIDES OF A CO-PARTITIONED JOIN: rows meet only if equal keys hash to the same piece on both sides.
+    The shuffle side is partitioned by RearrangeByColumn, whose key cast is decided by `_is_numeric_cast_type` (numeric dtypes AND
+    categoricals with numeric categories are hashed as float64). Every other splitter a join layer uses for the opposite side (the
+    per-partition split in BroadcastJoin._layer) must be a package function that applies the same predicate - an external helper with
+    its own cast rule (dask.dataframe.multi._split_partition casts only plain numeric dtypes) sends equal categorical keys to different
+    pieces: a left broadcast join lost 21 of 36 matches.""",
+)
+def r10i(ctx):
+    model = ctx.model
+    rc = model.cls("RearrangeByColumn", "_shuffle")
+    lw = model.method(rc, "_lower", own=True).node
+    preds = {n.func.id for n in ast.walk(lw) if isinstance(n, ast.Call) and isinstance(n.func, ast.Name) and "cast" in n.func.id}
+    if not preds:
+        raise AnalysisError("anchor vanished: the key-cast predicate of RearrangeByColumn._lower")
+    bj = model.cls("BroadcastJoin", "_merge")
+    lay = model.method(bj, "_layer", own=True).node
+    n = 0
+    from sa.rules.util import closure_functions
+
+    local_names = {x.id for x in ast.walk(lay) if isinstance(x, ast.Name) and isinstance(x.ctx, ast.Store)}
+    for t in (x for x in ast.walk(lay) if isinstance(x, ast.Tuple) and x.elts and isinstance(x.elts[0], ast.Name) and "split" in x.elts[0].id.lower()):
+        name = t.elts[0].id
+        if name in local_names:
+            continue  # a key tuple (name, partition), not a task
+        n += 1
+        cid = f"_merge.BroadcastJoin._layer:splitter:{name}"
+        r = model.resolve_name(bj.module, name)
+        if r is None or r[0] != "func":
+            ctx.bad(cid, bj.module.loc(t), f"the non-broadcast side is split by `{name}`, which is not a function of this package: its key cast cannot be the rule of RearrangeByColumn ({sorted(preds)}) that partitioned the broadcast side - equal keys of a dtype the two rules treat differently (categoricals with numeric categories) land in different pieces and the join loses matches")
+            continue
+        text = " ".join(ast.unparse(f) for _, _, f in closure_functions(model, r[1], None, r[2], depth=1))
+        if preds & {m_ for m_ in preds if m_ + "(" in text}:
+            ctx.ok(cid, bj.module.loc(t), f"{name} applies {sorted(preds)} like RearrangeByColumn")
+        else:
+            ctx.bad(cid, bj.module.loc(t), f"`{name}` splits the non-broadcast side without the key-cast predicate {sorted(preds)} that RearrangeByColumn applies to the broadcast side: keys the two rules hash differently never meet")
+    ctx.floor("splitters in BroadcastJoin._layer", n, 1)
